@@ -298,7 +298,9 @@ where
         let config = self.config.load();
         let reconnect = new_config.client_id != config.client_id
             || new_config.destination != config.destination
-            || new_config.queue_size != config.queue_size;
+            || new_config.queue_size != config.queue_size
+            || new_config.username != config.username
+            || new_config.password != config.password;
 
         // Re-create the reconnect delay interval based on the new config
         connection.set_retry_delay(new_config.connect_retry_secs);
